@@ -5,7 +5,7 @@ from rules import rolling, common
 
 CLAIMED = True
 TECHNIQUE = "static analysis over type-checked MIR: Once::call_once closure ownership of the only `true` assignment, comparison normal form, constant pre-process flag, caller inventory under the appender lock"
-LEVEL_TEXT = """Static, all-paths decision of: (O1) the value returned by OnStartUpTrigger::trigger starts false and its only assignment of true is inside the closure passed to Once::call_once on the trigger's own std::sync::Once field, which is created only by the constructor; (O2) inside that closure the assignment is control-dependent on len_estimate >= min_size (normal form) and nothing else; (O3) is_pre_process is const true, the pre-processing branch of the appender rolls before writing (C05.R2 premises re-evaluated), and the size it is shown is seeded from the metadata of the file just opened, 0 only where that open truncated (C06.Z3 premises re-evaluated), and the path handed on to the roller is the appender's own path, which is the one get_writer opens (C05.R5 premises re-evaluated), and the fixed-window roller creates the archive directories at roll time, so a missing directory is not mistaken for a missing source (C07.R10 re-evaluated); (O4) Trigger::trigger is reached only through CompoundPolicy::process, which is reached only from RollingFileAppender::append inside the writer lock's span, so simultaneous first appends are serialised; (O5) CompoundPolicy::process carries out the rotation whenever the trigger answers true — roll() and the roller are guarded by nothing else, so the once-only request cannot be vetoed and lost. The resulting directory contents are decided under C05/C07 only structurally. (O3h) the roller window of the document reaches the roller (C14 rule re-evaluated). (O3i) compressed archives are written with whole-buffer writes and a checked finish (C07.R13 re-evaluated; the all-features configuration is part of the quick tier)."""
+LEVEL_TEXT = """Static, all-paths decision of: (O1) the value returned by OnStartUpTrigger::trigger starts false and its only assignment of true is inside the closure passed to Once::call_once on the trigger's own std::sync::Once field, which is created only by the constructor; (O2) inside that closure the assignment is control-dependent on len_estimate >= min_size (normal form) and nothing else; (O3) is_pre_process is const true, the pre-processing branch of the appender rolls before writing (C05.R2 premises re-evaluated), and the size it is shown is seeded from the metadata of the file just opened, 0 only where that open truncated (C06.Z3 premises re-evaluated), and the path handed on to the roller is the appender's own path, which is the one get_writer opens (C05.R5 premises re-evaluated), and the fixed-window roller creates the archive directories at roll time, so a missing directory is not mistaken for a missing source (C07.R10 re-evaluated); (O4) Trigger::trigger is reached only through CompoundPolicy::process, which is reached only from RollingFileAppender::append inside the writer lock's span, so simultaneous first appends are serialised; (O5) CompoundPolicy::process carries out the rotation whenever the trigger answers true — roll() and the roller are guarded by nothing else, so the once-only request cannot be vetoed and lost. The resulting directory contents are decided under C05/C07 only structurally. (O3h) the roller window of the document reaches the roller (C14 rule re-evaluated). (O3i) compressed archives are written with whole-buffer writes and a checked finish (C07.R13 re-evaluated; the all-features configuration is part of the quick tier). (O3j) the roller's range and window guard (C07.R2 re-evaluated)."""
 LEVEL_NOTE = "Trusted: rustc MIR/callee resolution; std::sync::Once runs the closure at most once and blocks concurrent callers; parking_lot mutual exclusion."
 EXPLANATION = """Decided: O1 at most once (Once closure owns the only true-assignment), O2 threshold >=, O3 pre-processing flag and ordering, O4 serialised under the appender lock, O5 the requested rotation is never vetoed. Undecided: resulting directory contents (C05/C07)."""
 DECIDED = ["O1 once-closure", "O2 len >= min_size", "O3 pre-process", "O4 serialised", "O5 triggered => rolled", "O1/O2 decided as a four-situation table: Ok(true) iff this call runs the Once and len >= min_size", "O5/O6 the configured min_size reaches the trigger; a missing key stands for 1", "O3f/O3g the archiving move takes the old content away (C07.R5/R11 re-evaluated)"]
@@ -96,6 +96,7 @@ def run_cfg(ctx, p, cfg):
             from rules import c14
             c14.rule_roller_window_from_document(ctx, p, cfg, "O3h")   # "becomes the newest archive": of the window the document states, not of the default one
         c07.rule_archive_writes_surface(ctx, p, cfg, "O3i")   # "becomes the newest archive" whole: compressed copies are written with whole-buffer writes and finished with a checked finish() (C07.R13 re-evaluated)
+        c07.rule_range(ctx, p, cfg, "O3j")   # whatever valid window the roller has, the start-up roll goes into it (C07.R2 re-evaluated)
         c07.rule_roll_moves_file(ctx, p, cfg, "O3g")   # the start-up roll is never retried: the archive directory is made sure of at roll time (C07.R10 re-evaluated)
     rolling.rule_reopen(ctx, p, cfg, "O3d")  # .. and the path the roller is handed (O3b: the appender's own) is the path that was opened
 
